@@ -153,6 +153,25 @@ def run(ctx):
     mr.rule_no_lossy_map_merge(ctx, "R16.4m", folding, floor=2, what="LEF text (several OBS / PORT / LAYER statements on one layer)")
     mr.rule_no_overwrite_in_loop(ctx, "R16.4o", [PFX], floor=1)
 
+    # ---- R16.6 names are kept and matched exactly
+    ctx.rule("R16.6", "layer, pin and macro names are taken over and looked up exactly as written: the LEF importer does no case folding (LEF names are case-sensitive; `m1` and `M1` are different layers)")
+    FOLD = re.compile(r"::(eq_ignore_ascii_case|to_lowercase|to_uppercase|to_ascii_lowercase|to_ascii_uppercase|make_ascii_lowercase|make_ascii_uppercase)$")
+    n_lookup = 0
+    for f in F.fns.values():
+        if not f.id.startswith(PFX):
+            continue
+        b = Body(f)
+        for bi, t in b.calls():
+            n = callee_name(t) or ""
+            if re.search(r"::(keyname|get_or_insert|get)$|HashMap::<.*>::(get|entry|insert)$", n):
+                n_lookup += 1
+            if FOLD.search(n):
+                key = "%s/%s" % (f.short.replace("::{closure#0}", ""), n.split("::")[-1])
+                ctx.violation("R16.6", key, "%s compares or stores a name through %s: names that differ only in letter case are merged, so shapes land on a layer other than the one the LEF names" % (f.short, n.split("::")[-1]), b.site(bi), key)
+    ctx.floor("R16.6", "name_lookup_sites", n_lookup, 2)
+    if n_lookup:
+        ctx.ok("R16.6", "no-case-folding", "%d name lookups, none case-folded" % n_lookup)
+
     # ---- R16.4 every geometry imported or error
     for f in select(F, PFX, [IMP, r"^&lef21::LefLayerGeometries$"], r"Result<\(.*LayerKey, .*Vec<.*Shape>\),"):
         b = Body(f)
